@@ -9,7 +9,7 @@ import ast
 from .. import astutil as A
 from ..fa import FA
 from ..loader import AnalysisError
-from .cache_model import CacheModel, self_attr
+from .cache_model import CacheModel, self_attr, branch_filter, both, safe_expand, value_sources
 from .effects import reach_effects, storage_backend_classes, QUERY_METHODS
 from .keys import check_keying
 from . import c06
@@ -20,36 +20,84 @@ MDS = "storage_base.DataSourceMetadataSource"
 FSDS = "storage_filesystem._FilesystemDataSource"
 
 
+def _no_cache(text, positive) -> bool:
+    """literal: the backend has no memory cache"""
+    return (not positive and text in ("self._memory_cache", "bool(self._memory_cache)")) or (positive and text == "self._memory_cache is None")
+
+
+def _bind(call: ast.Call, params):
+    """callee parameter name -> argument expression (positional and keyword arguments alike; `self` skipped)"""
+    names = [p for p in params if p != "self"]
+    out = {}
+    for i, a in enumerate(call.args):
+        if isinstance(a, ast.Starred):
+            break
+        if i < len(names):
+            out[names[i]] = a
+    for k in call.keywords:
+        if k.arg:
+            out[k.arg] = k.value
+    return out
+
+
+def _xt(fa: FA, e, at=None) -> str:
+    """name-independent text of `e` (locals expanded), evaluated where `at` (default: e itself) is"""
+    if e is None:
+        return ""
+    ids = fa.nodes(at if at is not None else e)
+    try:
+        return fa.xnorm(e, ids[0]) if ids else A.norm(e)
+    except AnalysisError:
+        return A.norm(e)
+
+
 def _field_calls(fa: FA, field: str, method: str):
-    """Calls self.<field>.<method>(...)"""
-    return [c for c in fa.calls(method) if A.dotted(A.call_recv(c)) == "self." + field]
+    """Calls self.<field>.<method>(...), the field named directly or through a local alias"""
+    return [c for c in fa.calls(method) if A.dotted(A.call_recv(c)) == "self." + field or _xt(fa, A.call_recv(c), c) == "self." + field]
+
+
+def _binder_iter(fa: FA, name_node):
+    """The iterable that binds the variable `name_node` (a Name): the enclosing comprehension generator or for-loop
+    whose target is that name."""
+    if not isinstance(name_node, ast.Name):
+        return None
+    n = name_node
+    while n is not None:
+        n = fa.pm.get(n)
+        if isinstance(n, (ast.ListComp, ast.SetComp, ast.GeneratorExp, ast.DictComp)):
+            for g in n.generators:
+                if name_node.id in [x.id for x in ast.walk(g.target) if isinstance(x, ast.Name)]:
+                    return g.iter
+        if isinstance(n, (ast.For, ast.AsyncFor)) and name_node.id in [x.id for x in ast.walk(n.target) if isinstance(x, ast.Name)]:
+            return n.iter
+        if isinstance(n, ast.Lambda) and name_node.id in [a.arg for a in n.args.args]:
+            # filter(lambda k: ..., iterable) / map(...)
+            call = fa.pm.get(n)
+            if isinstance(call, ast.Call) and isinstance(call.func, ast.Name) and call.func.id in ("filter", "map") and len(call.args) == 2 and call.args[0] is n:
+                return call.args[1]
+            return None
+    return None
 
 
 def _forget_by_scan(ck, R, cm, ff, sw, sep):
+    own = [p_ for p_ in ff.fi.params if p_ != "self"]
+    slots = set()
     for c in sw:
-        deps = ff.deps(c.args[0]) if c.args else set()
-        attrs = {d.split(".")[-1] for d in deps if d.startswith("attr:")}
-        ends_sep = ("const:%r" % sep) in deps
-        # the separator must be the last operand of the concatenation
-        src = c.args[0]
-        if isinstance(src, ast.Name):
-            ds = []
-            for i in ff.nodes(c):
-                ds += ff.df.reaching(i, src.id)
-            if len(ds) == 1 and ds[0].value is not None:
-                src = ds[0].value
-        tail_ok = isinstance(src, ast.BinOp) and isinstance(src.op, ast.Add) and A.const_str(src.right) == sep
-        ok = "qualified_name" in attrs and ends_sep and tail_ok
+        # the selection prefix, however it is spelled (concatenation / format / f-string, through temporaries), is
+        # <function reference>.qualified_name followed by exactly the key separator
+        parts = A.str_parts(safe_expand(ff, c.args[0])) if c.args else None
+        ok = bool(parts) and len(parts) == 2 and parts[0][0] == "expr" and parts[1] == ("lit", sep) and bool(own) \
+            and A.norm(parts[0][1]) == own[0] + ".qualified_name"
         ck.ob(R, ff.key(c, "prefix-terminated"), ok,
               "selection prefix is qualified_name + %r" % sep if ok else
               "selection prefix is not terminated by the key separator %r: 'f#1' would also select 'f#10/...'" % sep,
               ff.where(c))
-    # both refs and cache are filtered
-    slots = set()
-    for comp in [n for n in A.walk_body(ff.node) if isinstance(n, ast.ListComp)]:
-        for g in comp.generators:
-            for a in A.attrs_in(g.iter):
+        # which table do the tested keys come from: the iterable that binds the tested variable (comprehension or loop)
+        it = _binder_iter(ff, A.call_recv(c))
+        if it is not None:
+            for a in A.attrs_in(it):
                 slots.add(a)
+    # both refs and cache are filtered
     need = {cm.map} | ({cm.refs} if cm.refs else set())
     ck.ob(R, ff.key(None, "slots"), need <= slots, "forget_function filters %s" % sorted(need) if need <= slots else
           "forget_function does not filter %s" % sorted(need - slots), ff.where())
@@ -106,24 +154,75 @@ def check_cache_reads_own_key(ck, cm: CacheModel, R):
     fa = FA(ck, cm.cls.methods["read_result"])
     ck.need(len(fa.fi.params) >= 2, "MemoryCache.read_result(memento) signature changed")
     mem = fa.fi.params[1]
-    own = {"self._cache_key_for_memento(%s)" % mem, "MemoryCache._cache_key_for_memento(%s)" % mem}
+    own = _cache_key_canon(ck, cm, ast.parse("self._cache_key_for_memento(%s)" % mem, mode="eval").body)
     slots = [cm.map] + ([cm.refs] if cm.refs else [])
     n = 0
     for r in fa.returns():
         if r.value is None:
             continue
-        e = fa.expand(r.value)
-        subs = [x for x in ast.walk(e) if isinstance(x, ast.Subscript) and self_attr(x.value) in slots]
-        gets = [x for x in ast.walk(e) if isinstance(x, ast.Call) and A.call_attr(x) in ("get", "pop") and self_attr(A.call_recv(x)) in slots and x.args]
-        keys = [A.norm(x.slice) for x in subs] + [A.norm(x.args[0]) for x in gets]
+        # per origin of the returned value (directly, through a temporary, or through a result variable set on several branches)
+        srcs = value_sources(fa, r) or [(r.value, None)]
+        ok, foreign = True, []
+        for (v_, at_) in srcs:
+            try:
+                e = fa.expand(v_, at_) if at_ is not None else v_
+            except AnalysisError:
+                e = v_
+            subs = [x for x in ast.walk(e) if isinstance(x, ast.Subscript) and self_attr(x.value) in slots]
+            gets = [x for x in ast.walk(e) if isinstance(x, ast.Call) and A.call_attr(x) in ("get", "pop") and self_attr(A.call_recv(x)) in slots and x.args]
+            keys = [x.slice for x in subs] + [x.args[0] for x in gets]
+            foreign += [k for k in keys if _cache_key_canon(ck, cm, k) != own]
+            ok = ok and bool(keys)
         n += 1
-        ok = bool(keys) and all(k in own for k in keys)
+        ok = ok and not foreign
         ck.ob(R, fa.key(r, "reads-own-key"), ok,
               "the served value is read under the asked memento's own cache key" if ok else
               "read_result returns a value read under `%s`, not under the cache key of the memento it was asked about: a call can be answered with "
-              "the value cached for another call (e.g. one that wrote a different result under the same override key)" % ([k for k in keys if k not in own] or ["no cache slot"])[0],
+              "the value cached for another call (e.g. one that wrote a different result under the same override key)" % ([A.norm(k) for k in foreign] or ["no cache slot"])[0],
               fa.where(r))
     ck.need(n >= 1, "MemoryCache.read_result returns no value")
+
+
+def _cache_key_canon(ck, cm, key_expr) -> str:
+    """Canonical text of a cache key expression: calls of the cache's own key builders (`_cache_key_for_memento`,
+    `_cache_key_for_fn`, via self / the class) are replaced by what they return, and string building is flattened,
+    so a key is the same whether it is obtained through the helpers or written out in place."""
+    import copy
+
+    def inline(e, depth):
+        class T(ast.NodeTransformer):
+            def visit_Call(self, n_):
+                self.generic_visit(n_)
+                f = n_.func
+                if depth < 4 and isinstance(f, ast.Attribute) and isinstance(f.value, ast.Name) and f.value.id in ("self", "cls", cm.cls.name) \
+                        and f.attr in cm.cls.methods and f.attr.startswith("_cache_key"):
+                    m = cm.cls.methods[f.attr]
+                    rets = [s_ for s_ in A.all_stmts(m.node) if isinstance(s_, ast.Return) and s_.value is not None]
+                    if len(rets) == 1:
+                        try:
+                            body = FA(ck, m).expand(rets[0].value)
+                        except AnalysisError:
+                            body = copy.deepcopy(rets[0].value)
+                        bound = _bind(n_, m.params)
+
+                        class S(ast.NodeTransformer):
+                            def visit_Name(self, x_):
+                                return copy.deepcopy(bound[x_.id]) if x_.id in bound and isinstance(x_.ctx, ast.Load) else x_
+
+                        return inline(S().visit(body), depth + 1)
+                return n_
+
+        return T().visit(e)
+
+    e = inline(copy.deepcopy(key_expr), 0)
+    parts = A.str_parts(e)
+    if parts and len(parts) > 1:
+        out = None
+        for (k, v) in parts:
+            node = ast.Constant(value=v) if k == "lit" else v
+            out = node if out is None else ast.BinOp(left=out, op=ast.Add(), right=node)
+        e = out
+    return A.norm(e)
 
 
 def check_metadata_single_form(ck, R):
@@ -134,12 +233,18 @@ def check_metadata_single_form(ck, R):
     dels = [c for c in fa.calls("delete_all_versions") + fa.calls("delete_nonversioned_key")]
     ok = False
     for c in dels:
-        if not c.args:
+        key_ = A.arg_or_kw(c, 0, "key")
+        if key_ is None:
             continue
-        e = fa.expand(c.args[0])
+        e = safe_expand(fa, key_, c)
         inner = [x for x in ast.walk(e) if isinstance(x, ast.Call) and A.call_attr(x) == "_get_metadata_key"]
-        if any(len(x.args) >= 3 and isinstance(x.args[2], ast.UnaryOp) and isinstance(x.args[2].op, ast.Not) and A.norm(x.args[2].operand) == "stored_with_data" for x in inner):
-            ok = True
+        mkf = ck.repo.try_func(MDS + "._get_metadata_key")
+        mkp = mkf.params if mkf is not None else ["fn_with_arg_hash", "key", "stored_with_data"]
+        for x in inner:
+            form = _bind(x, mkp).get(mkp[-1])
+            # the other form: the negation of the flag this write was asked for
+            if isinstance(form, ast.UnaryOp) and isinstance(form.op, ast.Not) and A.norm(form.operand) == "stored_with_data":
+                ok = True
     ck.ob(R, fa.key(None, "other-form-removed"), ok, "writing one form of a metadata key removes the other form" if ok else
           "write_metadata does not remove the key's other form (plain file / with-data marker): write_metadata(k, v1) followed by "
           "write_metadata(k, v2, store_with_content_key=...) reads back v1 on the filesystem backend, v2 on the memory backend", fa.where())
@@ -150,28 +255,65 @@ def check_delete_enumerates_versions(ck, R):
     two version objects and only the newest is named by the link, so resolving the link finds one of them.
     The non-recursive delete must enumerate the key's versions directory (glob / iterdir under
     _get_versions_directory(key)) and unlink what it finds; the link goes on every path."""
-    fa = FA(ck, FSDS + "._delete_all_versions_for_key")
-    loops = []
-    for lp in fa.stmts(ast.For):
-        d = fa.deps(lp.iter)
-        if "call:_get_versions_directory" in d and ("call:glob" in d or "call:iterdir" in d or "call:listdir" in d or "call:scandir" in d):
-            if any(A.call_attr(c) in ("unlink", "remove") for c in A.calls_in(lp)):
-                loops.append(lp)
-    ok = bool(loops) and any(fa.cfg.must_pass(fa.nodes(lp), fa.cfg.exit) for lp in loops)
+    fa = FA(ck, FSDS + "._delete_all_versions_for_key")  # (the host, when the helper was inlined into delete_all_versions)
+    vlits = _versions_dir_literals(ck)
+    loops = _version_scan_loops(fa, vlits)
+    # a path may skip the enumeration only where the key does not exist or the whole subtree goes (recursive delete)
+    skip = branch_filter(fa, lambda t, p: (not p and ".exists()" in t) or (p and t == "recursive"))
+    ok = bool(loops) and any(fa.cfg.exit not in fa.cfg.reach([fa.cfg.entry], removed=fa.nodes(lp), edge_ok=skip) for lp in loops)
     ck.ob(R, fa.key(None, "all-versions-enumerated"), ok,
           "every version object under the key's versions directory is unlinked" if ok else
           "_delete_all_versions_for_key does not enumerate the versions directory on every path (it deletes what the link resolves to, at most): "
           "superseded versions of a key written twice stay behind, the function directory is never pruned and a forgotten function stays listed", fa.where())
     dv = FA(ck, FSDS + ".delete_all_versions")
     links = [c for c in dv.calls("_delete_non_versioned_link")] + [c for c in dv.calls("_delete_all_versions_for_key")]
-    tests = [n.id for n in dv.cfg.nodes if n.kind == "test" and "exists" in A.norm(n.ast)]
-    okl = bool(links)
-    if okl and tests:
-        # once the key was found to exist, every path to the exit deletes the link (directly or in the per-key helper)
-        t = tests[0]
-        okl = dv.cfg.exit not in dv.cfg.reach([t], removed=dv.nodes_all(links), edge_ok=lambda s_, d_, l_: not (s_ == t and l_ == "F"), include_start=False)
+    # once the key was found to exist, every path to the exit deletes the link (directly or in the per-key helper): the only
+    # edges that may by-pass the deletion are those that say "does not exist" (guard clause or nested, either polarity)
+    # (a local that only ever holds an existence answer -- `present = a.exists()` ... `if not present: present = b.exists()` -- says the same)
+    flags = {}
+    for st in dv.stmts(ast.Assign):
+        for t in st.targets:
+            if isinstance(t, ast.Name):
+                flags.setdefault(t.id, []).append(".exists()" in A.norm(st.value))
+    flags = {n_ for n_, vs in flags.items() if all(vs)}
+    okl = bool(links) and dv.cfg.exit not in dv.cfg.reach([dv.cfg.entry], removed=dv.nodes_all(links),
+                                                            edge_ok=branch_filter(dv, lambda t, p: not p and (".exists()" in t or t in flags)))
     ck.ob(R, dv.key(None, "link-removed"), okl, "the link of a deleted key is removed on every path" if okl else
           "delete_all_versions can finish without removing the key's link", dv.where())
+
+
+def _versions_dir_literals(ck):
+    """The directory-name literal(s) under which versioned objects are written (`.versions`), from the writer's path builder."""
+    pv = FA(ck, FSDS + "._get_path_versioned")
+    return _dot_components(pv)
+
+
+def _dot_components(fa: FA):
+    """Literal path components starting with '.' in what `fa` returns: whole constant arguments of joinpath / os.path.join
+    (locals expanded); when the path is not built by such a call, every '.'-literal of the returned expression."""
+    comps, lits = set(), set()
+    for r in fa.returns():
+        if r.value is None:
+            continue
+        e = safe_expand(fa, r.value, r)
+        for c in ast.walk(e):
+            if isinstance(c, ast.Call) and A.call_attr(c) in ("joinpath", "join"):
+                comps |= {a.value for a in c.args if isinstance(a, ast.Constant) and isinstance(a.value, str) and a.value.startswith(".")}
+        lits |= {s_ for s_ in A.strings_in(r.value) if s_.startswith(".")}
+    return comps or lits
+
+
+def _version_scan_loops(fa: FA, vlits):
+    """Loops that enumerate a key's versions directory (glob / iterdir / listdir / scandir below a path built with the
+    versions-directory name or by _get_versions_directory) and unlink what they find."""
+    loops = []
+    for lp in fa.stmts(ast.For):
+        d = fa.deps(lp.iter)
+        under_versions = "call:_get_versions_directory" in d or any(("const:%r" % v) in d for v in vlits)
+        if under_versions and ("call:glob" in d or "call:iterdir" in d or "call:listdir" in d or "call:scandir" in d):
+            if any(A.call_attr(c) in ("unlink", "remove") for c in A.calls_in(lp)):
+                loops.append(lp)
+    return loops
 
 
 def check_forget_scope(ck, cm: CacheModel):
@@ -195,35 +337,80 @@ def check_forget_scope(ck, cm: CacheModel):
     f1 = FA(ck, MDS + ".forget_function")
     dels = f1.some(f1.calls("delete_all_versions"), "delete_all_versions call")
     for c in dels:
-        deps = f1.deps(c.args[0]) if c.args else set()
-        ok = "call:_get_function_path" in deps and "param:fn_reference" in deps and len(c.args) > 1 and A.norm(c.args[1]) == "True"
+        key_ = A.arg_or_kw(c, 0, "key")
+        deps = f1.deps(key_) if key_ is not None else set()
+        rec_ = A.arg_or_kw(c, 1, "recursive")
+        ok = "call:_get_function_path" in deps and "param:fn_reference" in deps and rec_ is not None and _xt(f1, rec_, c) == "True"
         ck.ob(R, f1.key(c), ok, "deletes exactly the function's directory, recursively" if ok else
               "forget_function does not delete exactly the directory returned by _get_function_path", f1.where(c))
     f2 = FA(ck, MDS + ".forget_call")
     lk = f2.one(f2.calls("list_keys_nonversioned"), "list_keys_nonversioned call")
-    d_dir = A.kwarg(lk, "directory") or (lk.args[0] if lk.args else None)
-    d_pre = A.kwarg(lk, "file_prefix") or (lk.args[1] if len(lk.args) > 1 else None)
-    rec = A.kwarg(lk, "recursive")
-    dd = f2.deps(d_dir) if d_dir is not None else set()
-    dp = f2.deps(d_pre) if d_pre is not None else set()
-    ok = ("call:dirname" in dd and "call:_get_path" in dd and "call:basename" in dp and "call:_get_path" in dp
-          and (rec is None or A.norm(rec) == "False"))
+    lkp = ck.repo.try_func("storage_base.DataSource.list_keys_nonversioned")
+    bl = _bind(lk, lkp.params if lkp is not None else ["self", "directory", "file_prefix", "recursive", "limit", "endswith"])
+    d_dir, d_pre, rec = bl.get("directory"), bl.get("file_prefix"), bl.get("recursive")
+    pmod = PathModel(ck)
+    own = [p_ for p_ in f2.fi.params if p_ != "self"]
+    ck.need(own, "forget_call takes no call argument")
+
+    def inner(e, fn_name):
+        """the argument of os.path.<fn_name>(...) inside `e` (locals expanded), or None; `d, b = os.path.split(P)` counts as
+        d = dirname(P), b = basename(P)"""
+        if e is None:
+            return None
+        ids = f2.nodes(lk)
+        x = f2.expand(e, ids[0]) if ids else e
+        hits = [c_ for c_ in ast.walk(x) if isinstance(c_, ast.Call) and A.call_attr(c_) == fn_name and len(c_.args) == 1]
+        if len(hits) == 1:
+            return hits[0].args[0]
+        for nm in [n_ for n_ in ast.walk(x) if isinstance(n_, ast.Name)]:
+            for d_ in (f2.df.reaching(ids[0], nm.id) if ids else []):
+                st_ = d_.stmt if d_.stmt is not None else (f2.cfg.node(d_.node).ast if d_.node >= 0 else None)
+                if isinstance(st_, ast.Assign) and len(st_.targets) == 1 and isinstance(st_.targets[0], ast.Tuple) and len(st_.targets[0].elts) == 2 \
+                        and isinstance(st_.value, ast.Call) and A.call_attr(st_.value) == "split" and "path" in (A.call_dotted(st_.value) or "") and len(st_.value.args) == 1:
+                    idx = [A.norm(t_) for t_ in st_.targets[0].elts].index(nm.id) if nm.id in [A.norm(t_) for t_ in st_.targets[0].elts] else None
+                    if idx == (0 if fn_name == "dirname" else 1):
+                        return safe_expand(f2, st_.value.args[0], st_)
+                # `d, b = P.rsplit('/', 1)`: the same two parts for a path that has a '/' (a call path always has)
+                if isinstance(st_, ast.Assign) and len(st_.targets) == 1 and isinstance(st_.targets[0], ast.Tuple) and len(st_.targets[0].elts) == 2 \
+                        and isinstance(st_.value, ast.Call) and A.call_attr(st_.value) == "rsplit" and [A.norm(a_) for a_ in st_.value.args] == ["'/'", "1"]:
+                    names_ = [A.norm(t_) for t_ in st_.targets[0].elts]
+                    if nm.id in names_ and names_.index(nm.id) == (0 if fn_name == "dirname" else 1):
+                        return safe_expand(f2, A.call_recv(st_.value), st_)
+        return None
+
+    dn, bn = inner(d_dir, "dirname"), inner(d_pre, "basename")
+    cps = []
+    if dn is not None and bn is not None:
+        # dirname(P) / basename(P) of the call path P = <function dir>/<arg hash>
+        pd_, pb_ = pmod._post(pmod._flat(dn)), pmod._post(pmod._flat(bn))
+        cps = [PathModel.call_path(pd_), PathModel.call_path(pb_)]
+        sel_ok = all(cp is not None and not cp[2] for cp in cps) and cps[0][:2] == cps[1][:2]
+    else:
+        # the same selection written directly: the function's directory and the argument hash as the prefix
+        pd_ = pmod.flatten(f2, d_dir, lk) if d_dir is not None else []
+        pb_ = pmod.flatten(f2, d_pre, lk) if d_pre is not None else []
+        sel_ok = len(pd_) == 1 and pd_[0][0] == "fnpath" and len(pb_) == 1 and pb_[0][0] == "expr"
+        cps = [(pd_[0][1], pb_[0][1], [])] if sel_ok else []
+    ok = sel_ok and (rec is None or _xt(f2, rec, lk) == "False")
     ck.ob(R, f2.key(lk), ok, "selects dirname/basename of the call's path, non-recursively" if ok else
           "forget_call does not select exactly <function dir>/<arg hash>* (directory/file_prefix/recursive changed)", f2.where(lk))
-    gp = [c for c in f2.calls("_get_path")]
-    okp = bool(gp) and all({"fn_reference", "arg_hash"} <= {d.split(".")[-1] for a in c.args for d in f2.deps(a) if d.startswith("attr:")} for c in gp)
+    okp = bool(cps) and all(cp is not None and cp[0] == own[0] + ".fn_reference" and cp[1] == own[0] + ".arg_hash" for cp in cps)
     ck.ob(R, f2.key(None, "path-args"), okp, "call path built from (fn_reference, arg_hash)" if okp else
           "forget_call's path is not built from the call's fn_reference and arg_hash", f2.where())
     dl = f2.some(f2.calls("delete_all_versions"), "delete_all_versions call")
     for c in dl:
         loop = f2.enclosing(c, ast.For)
-        ok = loop is not None and lk in list(ast.walk(loop.iter)) and isinstance(loop.target, ast.Name) and c.args \
-            and A.norm(c.args[0]) == loop.target.id and len(c.args) > 1 and A.norm(c.args[1]) == "False"
+        rec_ = A.arg_or_kw(c, 1, "recursive")
+        key_ = A.arg_or_kw(c, 0, "key")
+        # the loop runs over what the selection listed (directly or through a temporary) and deletes each listed key
+        ok = loop is not None and (lk in list(ast.walk(loop.iter)) or "call:list_keys_nonversioned" in f2.deps(loop.iter)) and isinstance(loop.target, ast.Name) \
+            and key_ is not None and A.norm(key_) == loop.target.id and rec_ is not None and _xt(f2, rec_, c) == "False"
         ck.ob(R, f2.key(c), ok, "each selected key is deleted, non-recursively" if ok else
               "forget_call does not delete exactly the selected keys (non-recursively)", f2.where(c))
     f3 = FA(ck, MDS + ".forget_everything")
     de = f3.some(f3.calls("delete_all_versions"), "delete_all_versions call")
-    ok = any(len(c.args) > 1 and A.norm(c.args[1]) == "True" and A.strings_in(c.args[0]) == [""] for c in de)
+    ok = any(A.arg_or_kw(c, 1, "recursive") is not None and _xt(f3, A.arg_or_kw(c, 1, "recursive"), c) == "True" and A.arg_or_kw(c, 0, "key") is not None
+             and A.strings_in(safe_expand(f3, A.arg_or_kw(c, 0, "key"), c)) == [""] for c in de)
     ck.ob(R, f3.key(None), ok, "forget_everything deletes the root recursively" if ok else
           "forget_everything does not delete the whole metadata root", f3.where())
     # (c) backend base mirrors into cache and metadata source
@@ -234,16 +421,14 @@ def check_forget_scope(ck, cm: CacheModel):
         ck.ob(R, fa.key(None, "metadata-source"), okm, "metadata source %s on every path" % name if okm else
               "%s does not reach self._metadata_source.%s on every normal path" % (name, name), fa.where())
         cc = _field_calls(fa, "_memory_cache", name)
-        cache_tests = [n.id for n in fa.cfg.nodes if n.kind == "test" and "self._memory_cache" in A.norm(n.ast)]
-        def edge_ok(s, d, l, ct=cache_tests):
-            return not (s in ct and l == "F")
-        okc = bool(cc) and fa.cfg.exit not in fa.cfg.reach([fa.cfg.entry], removed=fa.nodes_all(cc), edge_ok=edge_ok)
+        # a path may skip the cache only on a branch edge that says there is no cache
+        okc = bool(cc) and fa.cfg.exit not in fa.cfg.reach([fa.cfg.entry], removed=fa.nodes_all(cc), edge_ok=branch_filter(fa, _no_cache))
         ck.ob(R, fa.key(None, "cache"), okc, "cache %s whenever a cache exists" % name if okc else
               "%s can finish without self._memory_cache.%s although a cache exists: forgotten entries stay served from memory" % (name, name), fa.where())
         # arguments forwarded unchanged
         for c in md + cc:
             params = [p for p in fa.fi.params if p != "self"]
-            okA = [A.norm(a) for a in c.args] == params
+            okA = [_xt(fa, a, c) for a in c.args] + [_xt(fa, k.value, c) for k in c.keywords] == params
             ck.ob(R, fa.key(c, "args"), okA, "scope argument forwarded unchanged" if okA else
                   "the scope argument is not forwarded unchanged", fa.where(c))
     # (d) memory backend tables
@@ -265,23 +450,43 @@ def check_forget_scope(ck, cm: CacheModel):
     ck.ob(R, fc.key(None, "tables"), found == set(tables), "forget_call removes from mementos, result and metadata" if found == set(tables) else
           "forget_call does not remove from %s" % sorted(set(tables) - found), fc.where())
     fe = FA(ck, MEMBACK + ".forget_everything")
-    cl = {A.dotted(A.call_recv(c)) for c in fe.calls("clear")}
+    cl = set()
+    for c in fe.calls("clear"):
+        # the cleared table, named directly or reached through a loop variable / alias
+        cl |= {d[5:] for d in (fe.deps(A.call_recv(c)) if fe.nodes(c) else set()) if d.startswith("attr:self.")} | {A.dotted(A.call_recv(c))}
     okE = {"self." + t for t in tables} <= cl
     ck.ob(R, fe.key(None, "tables"), okE, "forget_everything clears all tables" if okE else
           "forget_everything does not clear all of %s" % (tables,), fe.where())
     fF = FA(ck, MEMBACK + ".forget_function")
     per_call = [c for c in fF.calls("forget_call") if A.dotted(A.call_recv(c)) == "self"]
-    okF = bool(per_call) and any(isinstance(fF.enclosing(c, ast.For), ast.For) and "list_mementos" in A.norm(fF.enclosing(c, ast.For).iter) for c in per_call)
+    okF = bool(per_call) and any(isinstance(fF.enclosing(c, ast.For), ast.For) and ("list_mementos" in A.norm(fF.enclosing(c, ast.For).iter)
+                                                                                    or "call:list_mementos" in fF.deps(fF.enclosing(c, ast.For).iter)) for c in per_call)
     ck.ob(R, fF.key(None, "per-call"), okF, "forget_function forgets each memento of exactly this function" if okF else
           "forget_function does not iterate this function's mementos through forget_call", fF.where())
     # custom metadata (and results) are keyed per call and can exist for calls that have no memento: they go with the
     # function as well, selected by the '<qualified name>/' prefix (terminated, so that f#1 does not take f#10 along)
     for tb in ("metadata", "result"):
-        sel = [c for c in fF.calls("startswith") if any("attr:self." + tb in fF.deps(g.iter) for comp in ast.walk(fF.node) if isinstance(comp, (ast.ListComp, ast.GeneratorExp, ast.SetComp))
-                                                         for g in comp.generators if fF.inside(c, comp))]
-        rem = [n for n in A.walk_body(fF.node) if (isinstance(n, ast.Delete) and any(isinstance(t, ast.Subscript) and A.norm(t.value) == "self." + tb for t in n.targets))
-               or (isinstance(n, ast.Call) and A.call_attr(n) == "pop" and A.norm(A.call_recv(n)) == "self." + tb)]
-        term = bool(sel) and all(c.args and ("const:'/'" in fF.deps(c.args[0])) and "qualified_name" in {d.split(".")[-1] for d in fF.deps(c.args[0]) if d.startswith("attr:")} for c in sel)
+        # prefix tests on keys that come out of self.<tb> (the tested variable is bound by a comprehension or a loop over it)
+        def _deps_at(e, at):
+            """dependency atoms of `e`, evaluated at the statement that contains `at` (works inside a lambda body as well)"""
+            ids_ = fF.nodes(e) or fF.nodes(at)
+            x_ = at
+            while not ids_ and x_ is not None:
+                x_ = fF.pm.get(x_)  # out of a lambda body, up to something the CFG knows
+                ids_ = fF.nodes(x_) if x_ is not None else []
+            out_ = set()
+            for i_ in ids_:
+                out_ |= fF.df.deps(e, i_)
+            return out_
+        sw_all = list(fF.calls("startswith")) + [c_ for lam in A.walk_body(fF.node) if isinstance(lam, ast.Lambda)
+                                                 for c_ in ast.walk(lam.body) if isinstance(c_, ast.Call) and A.call_attr(c_) == "startswith"]
+        sel = [c for c in sw_all if _binder_iter(fF, A.call_recv(c)) is not None
+               and "attr:self." + tb in _deps_at(_binder_iter(fF, A.call_recv(c)), c)]
+        def _is_tb(e, at, tb=tb):
+            return A.norm(e) == "self." + tb or (bool(fF.nodes(at)) and "attr:self." + tb in fF.deps(e))
+        rem = [n for n in A.walk_body(fF.node) if (isinstance(n, ast.Delete) and any(isinstance(t, ast.Subscript) and _is_tb(t.value, n) for t in n.targets))
+               or (isinstance(n, ast.Call) and A.call_attr(n) == "pop" and _is_tb(A.call_recv(n), n))]
+        term = bool(sel) and all(c.args and ("const:'/'" in _deps_at(c.args[0], c)) and "qualified_name" in {d.split(".")[-1] for d in _deps_at(c.args[0], c) if d.startswith("attr:")} for c in sel)
         okT = bool(sel) and bool(rem) and term
         if tb == "result" and not sel:
             continue  # results are removed per memento by forget_call; a prefix sweep is optional
@@ -388,20 +593,16 @@ def check_cache_coherence(ck, cm):
     # memoize writes through on every non-read-only path, before the store can fail half-way
     fa = FA(ck, BACKEND_BASE + ".memoize")
     puts = _field_calls(fa, "_memory_cache", "put")
-    cache_tests = [n.id for n in fa.cfg.nodes if n.kind == "test" and "self._memory_cache" in A.norm(n.ast)]
-    ro_tests = [n.id for n in fa.cfg.nodes if n.kind == "test" and "self.read_only" in A.norm(n.ast)]
-    def edge_ok(s, d, l):
-        if s in cache_tests and l == "F":
-            return False
-        if s in ro_tests and l == "T":
-            return False
-        return True
+    # a path may finish without the put only on a branch edge that says "no cache" or "read-only" (whatever the
+    # nesting, the polarity of the test or a temporary holding the flag)
+    edge_ok = branch_filter(fa, lambda t, p: _no_cache(t, p) or (p and t == "self.read_only"))
     ok = bool(puts) and fa.cfg.exit not in fa.cfg.reach([fa.cfg.entry], removed=fa.nodes_all(puts), edge_ok=edge_ok)
     ck.ob(R, fa.key(None, "write-through"), ok, "memoize writes through to the cache on every writable path" if ok else
           "memoize can store without updating the memory cache: a stale cached value outlives the new one", fa.where())
     for c in puts:
-        hv = A.kwarg(c, "has_result") or (c.args[2] if len(c.args) > 2 else None)
-        okv = [A.norm(a) for a in c.args[:2]] == ["memento", "result"] and hv is not None and A.norm(hv) == "True"
+        b_ = _bind(c, cm.insert.params)
+        hv = b_.get("has_result")
+        okv = [_xt(fa, b_.get(x), c) for x in ("memento", "result")] == ["memento", "result"] and hv is not None and _xt(fa, hv, c) == "True"
         ck.ob(R, fa.key(c, "args"), okv, "cache receives (memento, result, has_result=True)" if okv else
               "the write-through does not pass the memoized (memento, result) with has_result=True", fa.where(c))
     # replace-on-put also covers the weak-reference slot: when the new value cannot be weakly
@@ -426,39 +627,146 @@ def check_cache_coherence(ck, cm):
     # a memento-only cache entry never answers a value read
     gm = FA(ck, BACKEND_BASE + ".get_mementos")
     for c in _field_calls(gm, "_memory_cache", "put"):
-        hv = A.kwarg(c, "has_result") or (c.args[2] if len(c.args) > 2 else None)
-        okh = hv is not None and A.norm(hv) == "False" and len(c.args) > 1 and A.is_none(c.args[1])
+        b_ = _bind(c, cm.insert.params)
+        hv = b_.get("has_result")
+        okh = hv is not None and _xt(gm, hv, c) == "False" and b_.get("result") is not None and _xt(gm, b_["result"], c) == "None"
         ck.ob(R, gm.key(c, "memento-only"), okh, "a memento found in the store is cached without a value" if okh else
               "get_mementos caches a memento with has_result set / a value: a later read_result is served None (or junk) from the cache instead of the stored value", gm.where(c))
     crr = FA(ck, "storage_base.MemoryCache.read_result")
-    vr = [r for r in crr.returns() if r.value is not None and A.norm(r.value).endswith(".value")]
-    hv_tests = [n.id for n in crr.cfg.nodes if n.kind == "test" and "has_value" in A.norm(n.ast)]
-    okv = bool(vr) and bool(hv_tests) and all(crr.cfg.must_pass(hv_tests, i) for r in vr for i in crr.nodes(r))
-    if okv:
-        # on the 'no value' edge the method raises KeyError (fall back to the store)
-        for t in hv_tests:
-            neg = A.norm(crr.cfg.node(t).ast).startswith("not ")
-            starts = [d for (d, l) in crr.cfg.succ[t] if l == ("T" if neg else "F")]
-            r_ = crr.cfg.reach(starts)
-            if crr.cfg.exit in r_ and any(set(crr.nodes(x)) & r_ for x in vr):
-                okv = False
+    # the places where <entry>.value is read in order to be returned (in the return itself or into a result variable)
+    vr = []
+    for r in crr.returns():
+        for (v_, at_) in value_sources(crr, r):
+            try:
+                if crr.xnorm(v_, at_).endswith(".value"):
+                    vr.append(at_)
+            except AnalysisError:
+                pass
+    # every way to such a read takes a branch edge that says the entry holds a value (any polarity / nesting of the
+    # test; the other edge raises KeyError or answers from somewhere else, it never reaches the read)
+    holds = branch_filter(crr, lambda t, p: p and t.endswith(".has_value"))
+    okv = bool(vr) and not (set(vr) & crr.cfg.reach([crr.cfg.entry], edge_ok=holds))
     ck.ob(R, crr.key(None, "value-only-if-has-value"), okv, "the cache serves a value only from an entry that holds one (else KeyError => store)" if okv else
           "MemoryCache.read_result can return entry.value of a memento-only entry (has_value False): the caller gets None instead of the stored result", crr.where())
     # read path: cache consulted first, and the value read from the store is put back
     rr = FA(ck, BACKEND_BASE + ".read_result")
     loads = rr.some([c for c in rr.calls("load") if A.dotted(A.call_recv(c)) == "self.codec"], "self.codec.load call")
     for c in _field_calls(rr, "_memory_cache", "put"):
-        hv = A.kwarg(c, "has_result") or (c.args[2] if len(c.args) > 2 else None)
-        okb = len(c.args) >= 2 and A.norm(c.args[0]) == "memento" and rr.xnorm(c.args[1], rr.nodes(c)[0]).startswith("self.codec.load(") \
-            and hv is not None and A.norm(hv) == "True" and "call:load" in rr.deps(c.args[1])
+        b_ = _bind(c, cm.insert.params)
+        hv = b_.get("has_result")
+        okb = b_.get("memento") is not None and b_.get("result") is not None and _xt(rr, b_["memento"], c) == "memento" \
+            and _xt(rr, b_["result"], c).startswith("self.codec.load(") \
+            and hv is not None and _xt(rr, hv, c) == "True" and "call:load" in rr.deps(b_["result"])
         ck.ob(R, rr.key(None, "fill-with-loaded-value"), okb, "the value loaded from the store is what fills the cache" if okb else
               "read_result fills the cache with something else than (memento, <loaded value>, has_result=True)", rr.where(c))
     for c in loads:
-        args = [A.norm(a) for a in c.args]
+        args = [_xt(rr, a, c) for a in c.args]
         ok = len(args) == 3 and args[0].endswith("invocation_metadata.result_type") and args[1] == "self._data_source" and args[2].endswith(".content_key") \
             and args[0].startswith("memento.") and args[2].startswith("memento.")
         ck.ob(R, rr.key(c, "load-args"), ok, "the result is loaded by the memento's own result type and content key" if ok else
               "read_result does not load (memento.result_type, data source, memento.content_key)", rr.where(c))
+
+
+class PathModel:
+    """Store paths of the metadata source as flat part lists, whatever builds them (format / f-string / `+`, through
+    temporaries, with the private builders `_get_path` / `_get_function_path` called or written out in place):
+
+        ('fnpath', <function reference text>)   the function's directory  m/<qualified name>
+        ('lit', text)                           literal text
+        ('expr', text)                          any other interpolated value (locals expanded)
+
+    so the call path of (fn, h) is always [('fnpath', fn), ('lit', '/'), ('expr', h)] followed by the name's suffix."""
+
+    def __init__(self, ck):
+        self.ck = ck
+        self._getpath = None
+
+    def _get_path_shape(self):
+        """parts of `_get_path(fn_reference, arg_hash)` in terms of its two parameters (None if the helper is gone)"""
+        if self._getpath is None:
+            fi = self.ck.repo.try_func(MDS + "._get_path")
+            if fi is None:
+                self._getpath = False
+            else:
+                g = FA(self.ck, fi)
+                r = g.one([r for r in g.returns() if r.value is not None], "return with a value")
+                self._getpath = (self.flatten(g, r.value, r), list(fi.params))
+        return self._getpath or None
+
+    def flatten(self, fa: FA, e, at=None):
+        ids = fa.nodes(at if at is not None else e)
+        try:
+            x = fa.expand(e, ids[0]) if ids else e
+        except AnalysisError:
+            x = e
+        return self._post(self._flat(x))
+
+    def _flat(self, x):
+        # DataSourceKey(<str>) and <key>.key are transparent
+        if isinstance(x, ast.Call) and A.call_attr(x) == "DataSourceKey" and len(x.args) == 1 and not x.keywords:
+            return self._flat(x.args[0])
+        if isinstance(x, ast.Call) and A.call_attr(x) == "str" and len(x.args) == 1:
+            return self._flat(x.args[0])
+        if isinstance(x, ast.Attribute) and x.attr == "key" and isinstance(x.value, ast.Call):
+            if A.call_attr(x.value) == "_get_function_path" and len(x.value.args) + len(x.value.keywords) == 1:
+                return [("fnpath", A.norm(A.arg_or_kw(x.value, 0, "fn_reference")))]
+            if A.call_attr(x.value) == "DataSourceKey" and len(x.value.args) == 1:
+                return self._flat(x.value.args[0])
+        if isinstance(x, ast.Call) and A.call_attr(x) == "_get_function_path" and len(x.args) + len(x.keywords) == 1:
+            return [("fnpath", A.norm(A.arg_or_kw(x, 0, "fn_reference")))]
+        if isinstance(x, ast.Call) and A.call_attr(x) == "_get_path" and len(x.args) + len(x.keywords) == 2:
+            shape = self._get_path_shape()
+            if shape is not None:
+                parts, params = shape
+                b = _bind(x, params)
+                sub = {p_: A.norm(b[p_]) for p_ in params if p_ in b}
+                out = []
+                for (k, v) in parts:
+                    if k in ("fnpath", "expr") and v in sub:
+                        out.append((k, sub[v]))
+                    else:
+                        out.append((k, v))
+                return out
+        sp = A.str_parts(x)
+        if sp is None:
+            return [("expr", A.norm(x))]
+        out = []
+        for (k, v) in sp:
+            if k == "lit":
+                out.append(("lit", v))
+            elif v is x:
+                out.append(("expr", A.norm(v)))
+            else:
+                out += self._flat(v)
+        return out
+
+    @staticmethod
+    def _post(parts):
+        # merge literals; <prefix>.key '/' <fn>.qualified_name  ==  the function path written out in place
+        merged = []
+        for (k, v) in parts:
+            if k == "lit" and merged and merged[-1][0] == "lit":
+                merged[-1] = ("lit", merged[-1][1] + v)
+            elif not (k == "lit" and v == ""):
+                merged.append((k, v))
+        out = []
+        i = 0
+        while i < len(merged):
+            if i + 2 < len(merged) and merged[i][0] == "expr" and merged[i][1].endswith("_function_path_prefix.key") and merged[i + 1][0] == "lit" \
+                    and merged[i + 1][1] == "/" and merged[i + 2][0] == "expr" and merged[i + 2][1].endswith(".qualified_name"):
+                out.append(("fnpath", merged[i + 2][1][:-len(".qualified_name")]))
+                i += 3
+            else:
+                out.append(merged[i])
+                i += 1
+        return out
+
+    @staticmethod
+    def call_path(parts):
+        """-> (function reference text, arg hash text, rest of the parts) when `parts` starts with a call path"""
+        if len(parts) >= 3 and parts[0][0] == "fnpath" and parts[1][0] == "lit" and parts[1][1].startswith("/") and parts[1][1] == "/" and parts[2][0] == "expr":
+            return parts[0][1], parts[2][1], parts[3:]
+        return None
 
 
 def _fmt_suffix(fa: FA):
@@ -486,23 +794,40 @@ def check_path_scheme(ck):
     R = "C05.R5"
     ck.rule(R, "path scheme: string constants used to build store paths equal those used to parse / filter them", 8)
     mp = FA(ck, MDS + "._get_metadata_path")
-    fm = mp.one(_fmt_suffix(mp), "'{}<suffix>'.format(...)")
-    suffix = fm[1][2:]
-    ck.ob(R, mp.key(None, "prefix-is-call-path"), any(A.call_attr(a) == "_get_path" for a in fm[0].args if isinstance(a, ast.Call)),
+    pmod = PathModel(ck)
+
+    def call_named(fa_, r):
+        """(is the name the call path of the method's own (fn_reference, arg_hash)?, parts after the call path)"""
+        parts = pmod.flatten(fa_, r.value, r)
+        cp = PathModel.call_path(parts)
+        arg = [p_ for p_ in fa_.fi.params if p_ != "self"]
+        own = cp is not None and bool(arg) and cp[0] == arg[0] + ".fn_reference" and cp[1] == arg[0] + ".arg_hash"
+        return own, (cp[2] if cp is not None else parts)
+
+    named = [call_named(mp, r) for r in mp.some([r for r in mp.returns() if r.value is not None], "return with a value")]
+    sufs = {rest[0][1] if len(rest) == 1 and rest[0][0] == "lit" else None for (_own, rest) in named}
+    if None in sufs and all(own for (own, _r) in named):
+        raise AnalysisError("%s: cannot identify the literal suffix of memento file names" % mp.qual)
+    ck.ob(R, mp.key(None, "prefix-is-call-path"), all(own for (own, _r) in named),
           "memento file name starts with the call path", mp.where())
+    sufs.discard(None)
+    ck.need(len(sufs) == 1, "%s: cannot identify the literal suffix of memento file names" % mp.qual)
+    suffix = sufs.pop()
     lm = FA(ck, MDS + ".list_mementos")
     lk = lm.one(lm.calls("list_keys_nonversioned"), "list_keys_nonversioned call")
-    ew = A.kwarg(lk, "endswith")
-    ok = ew is not None and A.const_str(ew) == suffix
+    lkp = ck.repo.try_func("storage_base.DataSource.list_keys_nonversioned")
+    lk_params = lkp.params if lkp is not None else ["self", "directory", "file_prefix", "recursive", "limit", "endswith"]
+    ew = _bind(lk, lk_params).get("endswith")
+    ok = ew is not None and A.const_str(safe_expand(lm, ew, lk)) == suffix
     ck.ob(R, lm.key(lk, "suffix"), ok, "listing filters on the writer's suffix %r" % suffix if ok else
           "list_mementos filters on %s but mementos are written with suffix %r" % (A.norm(ew), suffix), lm.where(lk))
-    d = A.kwarg(lk, "directory")
+    d = _bind(lk, lk_params).get("directory")
     okd = d is not None and "call:_get_function_path" in lm.deps(d)
     ck.ob(R, lm.key(lk, "directory"), okd, "listing scans exactly the function's directory" if okd else
           "list_mementos does not scan the directory returned by _get_function_path", lm.where(lk))
     mk = FA(ck, MDS + "._get_metadata_key")
-    fk = mk.one(_fmt_suffix(mk), "'{}.metadata...'.format(...)")
-    okk = any(A.call_attr(a) == "_get_path" for a in fk[0].args if isinstance(a, ast.Call)) and not fk[1][2:].startswith(suffix)
+    knamed = [call_named(mk, r) for r in mk.some([r for r in mk.returns() if r.value is not None], "return with a value")]
+    okk = all(own and rest and rest[0][0] == "lit" and rest[0][1] and not rest[0][1].startswith(suffix) and not suffix.startswith(rest[0][1]) for (own, rest) in knamed)
     ck.ob(R, mk.key(None, "metadata-name"), okk, "custom metadata names start with the call path and cannot end like a memento" if okk else
           "custom metadata file names collide with memento file names", mk.where())
     # list_functions strips '<prefix>/'
@@ -519,74 +844,157 @@ def check_path_scheme(ck):
           "function paths are no longer built under the metadata prefix that list_functions scans", gf.where())
     # filesystem data source: .link suffix, .versions directory, escape/unquote
     lp = FA(ck, FSDS + "._get_non_versioned_link_path")
-    lits = [s for s in A.strings_in(lp.one(lp.returns(), "return").value)]
+    lpr = lp.one([r for r in lp.returns() if r.value is not None], "return")
+    lits = [s for s in A.strings_in(safe_expand(lp, lpr.value, lpr))]
     ck.need(len(lits) == 1, "link path builder: cannot identify the link suffix")
     link = lits[0]
     ls = FA(ck, FSDS + ".list_keys_nonversioned")
-    strips = []
-    for fn in [ls.fi] + list(ls.fi.nested.values()):
-        for n in A.walk_body(fn.node):
-            ew = [a for a in A.conj_atoms(n.test) if isinstance(a, ast.Call) and A.call_attr(a) == "endswith" and a.args] if isinstance(n, ast.If) else []
-            if ew:
-                lit = A.const_str(ew[0].args[0])
-                if lit is not None and lit.startswith("."):
-                    sl = [x for x in ast.walk(n) if isinstance(x, ast.Subscript) and isinstance(x.slice, ast.Slice)]
-                    strips.append((fn, n, lit, sl))
+    strips = _suffix_strip_sites(ck, ls)
     ck.need(strips, "list_keys_nonversioned: no link-suffix strip site found")
-    for (fn, n, lit, sl) in strips:
-        cut = None
-        for x in sl:
-            up = x.slice.upper
-            if isinstance(up, ast.UnaryOp) and isinstance(up.op, ast.USub) and isinstance(up.operand, ast.Constant):
-                cut = up.operand.value
+    for (f_, st, n, lit, cut, conds) in strips:
+        fn = f_.fi
         ok = lit == link and cut == len(link)
         ck.ob(R, "%s::%s" % (fn.qual, A.head(n)), ok, "listing strips exactly the %r suffix" % link if ok else
               "listing strips %r/%s characters but links are written with suffix %r" % (lit, cut, link), A.loc(fn, n))
         # only FILES are links: a directory whose name happens to end in the link suffix (a function
         # version such as "1.link") is a key component and must be listed unaltered
-        parents = {}
-        for x in ast.walk(fn.node):
-            for ch in ast.iter_child_nodes(x):
-                parents[ch] = x
         files_only = False
-        cond_txt = []
-        x = n
-        while x in parents:
-            x = parents[x]
-            if isinstance(x, ast.If):
-                cond_txt.append(A.norm(x.test))
+        x = st
+        while x is not None:
+            x = f_.pm.get(x)
             if isinstance(x, ast.For) and isinstance(x.iter, ast.Name):
                 # `for filename in filenames` under `for dirpath, dirnames, filenames in os.walk(..)`
                 y = x
-                while y in parents:
-                    y = parents[y]
+                while y is not None:
+                    y = f_.pm.get(y)
                     if isinstance(y, ast.For) and isinstance(y.iter, ast.Call) and A.call_attr(y.iter) == "walk" \
                             and isinstance(y.target, ast.Tuple) and len(y.target.elts) == 3 and A.norm(y.target.elts[2]) == x.iter.id:
                         files_only = True
-        cond_txt.append(A.norm(n.test))
-        guarded = any("is_file()" in t or "is_dir()" in t or "isfile(" in t or "isdir(" in t for t in cond_txt)
+        # every way to the strip has established "not a directory" / "a file" (either polarity of the test, guard clause or nesting)
+        def is_file_lit(t, p):
+            return (not p and ("is_dir()" in t or "isdir(" in t)) or (p and ("is_file()" in t or "isfile(" in t))
+        guarded = conds is not None and bool(conds) and all(any(is_file_lit(t, p) for (t, p) in c_) for c_ in conds)
         ck.ob(R, "%s::%s::files-only" % (fn.qual, A.head(n)), files_only or guarded,
               "the %r suffix is stripped from file names only" % link if files_only or guarded else
               "the %r suffix is stripped from every directory entry, sub-directories included: a function whose version ends in %r "
               "(its directory is <name>#<version>) is listed under a truncated version that was never memoized" % (link, link), A.loc(fn, n))
     pv = FA(ck, FSDS + "._get_path_versioned")
-    vd = FA(ck, FSDS + "._get_versions_directory")
-    lits_pv = {s for r in pv.returns() for s in A.strings_in(r.value) if s.startswith(".")}
-    lits_vd = {s for r in vd.returns() for s in A.strings_in(r.value) if s.startswith(".")}
+    lits_pv = _versions_dir_literals(ck)
+    if ck.repo.try_func(FSDS + "._get_versions_directory") is not None:
+        vd = FA(ck, FSDS + "._get_versions_directory")
+        lits_vd = _dot_components(vd)
+    else:
+        # the directory builder was inlined into the delete scan: the names are those that flow into the scan's iterable
+        dk = FA(ck, FSDS + "._delete_all_versions_for_key")
+        lits_vd = set()
+        for lp in dk.stmts(ast.For):
+            d = dk.deps(lp.iter)
+            if "call:glob" in d or "call:iterdir" in d or "call:listdir" in d or "call:scandir" in d:
+                for x in d:
+                    if x.startswith("const:'.") and "*" not in x and "{" not in x:
+                        lits_vd.add(x[7:-1])
     okv = len(lits_pv) == 1 and lits_pv == lits_vd
     ck.ob(R, pv.key(None, "versions-dir"), okv, "object paths and the delete scan agree on %s" % sorted(lits_pv) if okv else
           "version directory name differs between writer %s and deleter %s" % (sorted(lits_pv), sorted(lits_vd)), pv.where())
     vlit = sorted(lits_pv)[0] if lits_pv else ".versions"
+    # every entry a walker hands out was reached past a test that excludes the versions directory (guard clause with `continue`,
+    # nested if, either polarity); text comparison only where the walker has no recognisable emit statement
+    units = list(_walkers(ck, ls).values()) or [ls.fi]
     skip_ok = 0
-    for fn in list(ls.fi.nested.values()):
-        txt = A.norm(fn.node)
-        if ("== %r" % vlit) in txt or ("%s{}" % vlit) in txt:
+    for fn in units:
+        f_ = ls if fn is ls.fi else FA(ck, fn)
+        emits = [st for st in f_.stmts(ast.Expr) if isinstance(st.value, (ast.Yield, ast.YieldFrom))
+                 or (isinstance(st.value, ast.Call) and A.call_attr(st.value) == "append" and any(isinstance(x, ast.Call) and A.call_attr(x) == "DataSourceKey" for x in ast.walk(st.value)))]
+        decided = None
+        if emits:
+            decided = True
+            for st in emits:
+                try:
+                    conds = f_.conditions(st) if f_.nodes(st) else None
+                except AnalysisError:
+                    conds = None
+                if conds is None:
+                    decided = None
+                    break
+                if not (conds and all(any((not p_) and vlit in t_ for (t_, p_) in c_) for c_ in conds)):
+                    decided = False
+        if decided is None:
+            txt = A.norm(fn.node)
+            decided = ("== %r" % vlit) in txt or ("%s{}" % vlit) in txt
+        if decided:
             skip_ok += 1
-    ck.ob(R, ls.key(None, "skip-versions"), skip_ok == len(ls.fi.nested) and skip_ok > 0,
-          "listings skip the version directories" if skip_ok == len(ls.fi.nested) and skip_ok > 0 else
+    ck.ob(R, ls.key(None, "skip-versions"), skip_ok == len(units) and skip_ok > 0,
+          "listings skip the version directories" if skip_ok == len(units) and skip_ok > 0 else
           "a listing walks into %r: version objects appear as keys" % vlit, ls.where())
     check_escape_inverse(ck, R)
     check_strip_is_not_prefix_removal(ck, R)
+
+
+def _walkers(ck, ls: FA):
+    """The generators that enumerate a directory for list_keys_nonversioned: its nested functions, or -- when they were
+    hoisted out -- the methods of the same class it calls that contain a `yield`.  -> {name: FuncInfo}"""
+    out = dict(ls.fi.nested)
+    cls = ls.fi.cls
+    if cls is not None:
+        for c in ls.calls():
+            f = c.func
+            if isinstance(f, ast.Attribute) and isinstance(f.value, ast.Name) and f.value.id in ("self", "cls", cls.name) and f.attr in cls.methods:
+                m = cls.methods[f.attr]
+                if any(isinstance(y, (ast.Yield, ast.YieldFrom)) for y in A.walk_body(m.node)):
+                    out[f.attr] = m
+    return out
+
+
+def _suffix_strip_sites(ck, ls: FA):
+    """Statements of the listing (and its nested walkers) that cut a literal suffix off a name, by what they do:
+    `x = x[:-K]` / `x[0:-K]` / `x[:-len('<lit>')]` reached only when `<...>.endswith('<lit>')` holds, or
+    `x = x.removesuffix('<lit>')`.  -> [(FA, statement, keyed node, literal, characters cut, path conditions)]"""
+    import re
+    out = []
+    for fn in [ls.fi] + list(_walkers(ck, ls).values()):
+        f_ = ls if fn is ls.fi else FA(ck, fn)
+        for st in f_.stmts(ast.Assign):
+            v = st.value
+            cut = lit = None
+            if isinstance(v, ast.Subscript) and isinstance(v.slice, ast.Slice) and v.slice.step is None \
+                    and (v.slice.lower is None or (isinstance(v.slice.lower, ast.Constant) and v.slice.lower.value == 0)):
+                up = v.slice.upper
+                if isinstance(up, ast.UnaryOp) and isinstance(up.op, ast.USub):
+                    o = up.operand
+                    if isinstance(o, ast.Constant) and isinstance(o.value, int):
+                        cut = o.value
+                    elif isinstance(o, ast.Call) and isinstance(o.func, ast.Name) and o.func.id == "len" and len(o.args) == 1:
+                        la = safe_expand(f_, o.args[0], st)
+                        if A.const_str(la) is not None:
+                            cut = len(A.const_str(la))
+            elif isinstance(v, ast.Call) and A.call_attr(v) == "removesuffix" and len(v.args) == 1:
+                la = safe_expand(f_, v.args[0], st)
+                if A.const_str(la) is not None:
+                    lit, cut = A.const_str(la), len(A.const_str(la))
+            if cut is None:
+                continue
+            try:
+                conds = f_.conditions(st) if f_.nodes(st) else None
+            except AnalysisError:
+                conds = None
+            if lit is None:
+                # the suffix the cut is conditioned on
+                found = set()
+                for c_ in (conds or []):
+                    ms = [re.search(r"\.endswith\('(\.[^']*)'\)$", t) for (t, p) in c_ if p]
+                    found.add(tuple(sorted({m.group(1) for m in ms if m})))
+                if len(found) != 1 or len(next(iter(found))) != 1:
+                    continue
+                lit = next(iter(found))[0]
+            n = st
+            x = st
+            while x is not None:
+                x = f_.pm.get(x)
+                if isinstance(x, ast.If) and any(isinstance(c_, ast.Call) and A.call_attr(c_) == "endswith" for c_ in ast.walk(x.test)):
+                    n = x
+                    break
+            out.append((f_, st, n, lit, cut, conds))
+    return out
 
 
 def check_escape_inverse(ck, R):
@@ -608,7 +1016,7 @@ def check_escape_inverse(ck, R):
                 helper = cls.methods[nm]
                 if any(A.call_attr(x) in ("unquote", "unquote_plus") for x in A.body_calls(helper.node)):
                     collect(helper.node, cls)
-    for fn in ls.fi.nested.values():
+    for fn in _walkers(ck, ls).values():
         collect(fn.node, ls.fi.cls)
     ok_inv = oke and decoders == {"unquote"}
     ck.ob(R, ek.key(None, "escape"), ok_inv, "':' is escaped as a percent code that the listing decodes with unquote (the exact inverse)" if ok_inv else
@@ -640,7 +1048,8 @@ def check_listing_filters(ck, R):
     """Every filter of list_keys_nonversioned is applied inside the walkers, before an entry is
     counted against `limit`; nothing narrows the listing afterwards."""
     ls = FA(ck, FSDS + ".list_keys_nonversioned")
-    for name, sub in ls.fi.nested.items():
+    walkers = _walkers(ck, ls)
+    for name, sub in walkers.items():
         f = FA(ck, sub)
         # the counter is the local that is compared with `limit`
         cmpd = {x.id for n_ in A.walk_body(sub.node) if isinstance(n_, ast.Compare) and "limit" in A.names_in(n_) for x in ast.walk(n_) if isinstance(x, ast.Name)} - {"limit"}
@@ -655,13 +1064,39 @@ def check_listing_filters(ck, R):
                   "min(n, live) entries when other files (custom metadata) share the directory" % (name, flt), f.where())
     rets = ls.returns()
     post = []
-    ent = {r.value.args[0].id for r in rets if isinstance(r.value, ast.Call) and A.call_attr(r.value) == "sorted" and r.value.args and isinstance(r.value.args[0], ast.Name)}
-    for st in ls.stmts(ast.Assign):
-        if any(isinstance(t, ast.Name) and t.id in ent for t in st.targets):
-            v = st.value
-            if not (isinstance(v, ast.Call) and A.call_attr(v) == "list" and v.args and isinstance(v.args[0], ast.Call) and A.call_attr(v.args[0]) in ls.fi.nested):
-                post.append(st)
-    okp = not post and all(r.value is None or A.norm(r.value) == "[]" or (isinstance(r.value, ast.Call) and A.call_attr(r.value) == "sorted" and len(r.value.args) == 1 and A.norm(r.value.args[0]) in ent) for r in rets) and len(ent) == 1
+
+    def walk_output(e, at_nodes, depth=0):
+        """is `e` the complete output of a walker: walker() / list(walker()) / a local every definition of which is one"""
+        if isinstance(e, ast.List) and not e.elts:
+            return True
+        if isinstance(e, ast.Call) and isinstance(e.func, ast.Name) and e.func.id in ("list", "tuple") and len(e.args) == 1 and not e.keywords:
+            return walk_output(e.args[0], at_nodes, depth)
+        if isinstance(e, ast.Call) and A.call_attr(e) in walkers and (isinstance(e.func, ast.Name) or (isinstance(e.func, ast.Attribute) and isinstance(e.func.value, ast.Name))):
+            return True
+        if isinstance(e, ast.Name) and depth < 4:
+            ds = {}
+            for i in at_nodes:
+                for d in ls.df.reaching(i, e.id):
+                    ds[d.node] = d
+            if not ds:
+                return False
+            for d in ds.values():
+                if d.kind != "assign" or d.value is None or not walk_output(d.value, [d.node], depth + 1):
+                    post.append(d.stmt if d.stmt is not None else e)
+                    return False
+            return True
+        return False
+
+    okp = bool(rets)
+    for r in rets:
+        v = r.value
+        if v is None or (isinstance(v, ast.List) and not v.elts):
+            continue
+        if not ls.nodes(r):
+            continue
+        if not (isinstance(v, ast.Call) and A.call_attr(v) == "sorted" and isinstance(v.func, ast.Name) and len(v.args) == 1 and walk_output(v.args[0], ls.nodes(r))):
+            okp = False
+    post = [x for x in post if isinstance(x, ast.AST)]
     ck.ob(R, ls.key(None, "no-post-filter"), okp, "the walk result is only sorted" if okp else
           "the listing is narrowed after the walk (`%s`): the limit was already spent on entries that are filtered out afterwards" % A.short(post[0], 60) if post else
           "list_keys_nonversioned does not return sorted(entries)", ls.where(post[0] if post else None))
